@@ -26,6 +26,7 @@ type tcpTransport struct {
 	encryption    SessionEncryption
 	server        bool
 	eof           bool
+	closeMu       sync.Mutex
 }
 
 // DialTcp opens a TCP  transport connection with the specified URI.
@@ -165,15 +166,33 @@ func (t *tcpTransport) Receive(ctx context.Context) (envelope, error) {
 }
 
 func (t *tcpTransport) Close() error {
-	// The connection is released even after the peer went away (EOF seen)
-	if t.conn == nil {
+	// The connection is released even after the peer went away (EOF seen); two goroutines
+	// may get here at once (the party that ends a session and the one that stops serving it)
+	t.closeMu.Lock()
+	conn, ctxConn := t.conn, t.ctxConn
+	t.conn = nil
+	t.closeMu.Unlock()
+
+	if conn == nil {
 		return errors.New("transport is not open")
 	}
 
-	err := t.ctxConn.Close()
-	t.conn = nil
-	return err
+	// Closing a socket that still has inbound data, unread or on its way, resets the connection,
+	// and the peer then loses what was sent to it last - typically the envelope that ends the
+	// session. The sending side is closed first, and what the peer still sends is discarded
+	// until it closes its side too, for a bounded time.
+	if hc, ok := conn.(interface{ CloseWrite() error }); ok {
+		if hc.CloseWrite() == nil {
+			_ = conn.SetReadDeadline(time.Now().Add(closeLinger))
+			_, _ = io.Copy(io.Discard, conn)
+		}
+	}
+
+	return ctxConn.Close()
 }
+
+// closeLinger bounds the time Close waits for the peer to close its side of the connection.
+const closeLinger = time.Second
 
 func (t *tcpTransport) Connected() bool {
 	return t.conn != nil && !t.eof
